@@ -309,7 +309,9 @@ func (e *Exec) load(p *PtrV) Value {
 			v = c.f[pe.i]
 		case *ArrayV:
 			if pe.sym != nil {
-				e.unsupported("symbolic index into non-byte array")
+				// symbolic index into an array of (structs of) scalars: ite chain
+				v = e.selectElems(c, pe.sym)
+				continue
 			}
 			v = c.e[pe.i]
 		case *BytesV:
@@ -346,7 +348,16 @@ func (e *Exec) store(p *PtrV, val Value) {
 			v = c.f[pe.i]
 		case *ArrayV:
 			if pe.sym != nil {
-				e.unsupported("symbolic index into non-byte array")
+				if !last {
+					e.unsupported("store below a symbolically indexed array element")
+				}
+				if len(c.e) > 4096 {
+					e.unsupported("symbolic index into an array of more than 4096 non-integer elements")
+				}
+				for i := range c.e {
+					c.e[i] = e.mergeVal(e.st.Eq(pe.sym, e.c64(int64(i))), val, c.e[i])
+				}
+				return
 			}
 			if last {
 				c.e[pe.i] = val
@@ -386,4 +397,41 @@ func samePath(a, b []pathElem) bool {
 		}
 	}
 	return true
+}
+
+// mergeVal: ite over values made of scalars and structs/arrays of scalars.
+func (e *Exec) mergeVal(c *Term, a, b Value) Value {
+	switch x := a.(type) {
+	case *Term:
+		return e.st.Ite(c, x, b.(*Term))
+	case *StructV:
+		y := b.(*StructV)
+		n := &StructV{f: make([]Value, len(x.f))}
+		for i := range x.f {
+			n.f[i] = e.mergeVal(c, x.f[i], y.f[i])
+		}
+		return n
+	case *BytesV:
+		y := b.(*BytesV)
+		if x.arr == y.arr {
+			return x
+		}
+		return &BytesV{arr: e.st.Ite(c, x.arr, y.arr), n: x.n}
+	}
+	e.unsupported(fmt.Sprintf("symbolic selection between values of kind %T", a))
+	return nil
+}
+
+func (e *Exec) selectElems(a *ArrayV, idx *Term) Value {
+	if len(a.e) == 0 {
+		e.unsupported("symbolic index into empty array")
+	}
+	if len(a.e) > 4096 {
+		e.unsupported("symbolic index into an array of more than 4096 non-integer elements")
+	}
+	r := copyVal(a.e[len(a.e)-1])
+	for i := len(a.e) - 2; i >= 0; i-- {
+		r = e.mergeVal(e.st.Eq(idx, e.c64(int64(i))), a.e[i], r)
+	}
+	return r
 }
